@@ -1,6 +1,6 @@
 """What is claimed, per property. A property appears in CLAIMS only once its checker exists and
 passes on the unchanged tree."""
-FIX_COMMITS = ["4e9e139", "5ee6583", "744f482", "eb93a13", "ceb972a", "a924d81", "2127bcd", "d45c8ce", "840f793", "c6f0e0e", "026690a", "cee72dd", "d6006a0", "846c668", "74129bf", "7f18343", "8354688", "82fa6bb", "6319c34", "33ebaa4", "1e65682", "d23cb3d"]
+FIX_COMMITS = ["4e9e139", "5ee6583", "744f482", "eb93a13", "ceb972a", "a924d81", "2127bcd", "d45c8ce", "840f793", "c6f0e0e", "026690a", "cee72dd", "d6006a0", "846c668", "74129bf", "7f18343", "8354688", "82fa6bb", "6319c34", "33ebaa4", "1e65682", "d23cb3d", "8d23fc0", "35e79d8"]
 
 CLAIMS = {
     "C09": dict(
@@ -201,3 +201,26 @@ for i in range(1, 21):
     p = f"C{i:02d}"
     if p not in CLAIMS and p not in NOT_APPLICABLE:
         NOT_APPLICABLE[p] = _PENDING
+
+# rules added after the seeded rounds: one sentence each, inserted before the closing "not decided" sentence
+ADDENDA = {
+    "C01": "Also decided: the universal quantifier evaluates its condition on every path through one iteration over the quantified values (EP-UNIVERSAL, CFG); "
+           "a custom negation is read as a formula and compared with the operator's negation by truth table over a two-element model, and an operator swap "
+           "must use exact complements only.",
+    "C02": "Negations are exact duals (EP-NEG, shared with C01: a wrong dual drops satisfying assignments).",
+    "C03": "State filled over several results must be cleared within the evaluation step, not only once per evaluation (CARRY-SHARED: otherwise two live "
+           "iterators of one expression share it).",
+    "C04": "A memo entry taken out temporarily is back before related objects are converted (DAO-WINDOW, CFG path search); collections are converted element "
+           "by element without value de-duplication (DAO-COLLECT).",
+    "C07": "A join between two variables of one mapped hierarchy is rejected; the(...) fetches through the strict one-row call with no row-collapsing or limiting "
+           "call in the fetch chain or the statement (SQL-FETCH, row-effect table of the SQLAlchemy API); the join cache distinguishes the FROM element (SQL-ALIAS).",
+    "C10": "Property getters read during construction belong to the construction closure, and a field that holds a wrapper around a user stream is never "
+           "iterated, indexed or drained through the wrapper's draining members.",
+    "C14": "Registration of a wrapper overwrites the slot of its instance's id (a dead, unswept wrapper must not keep it).",
+    "C15": "The predicate that selects super-property fields accepts every proper ancestor of the descriptor class (PD-SUPERS, evaluated over a model hierarchy).",
+    "C16": "Every path of the setter that handles a live container passes the re-populating loop, or the in-place operators are hooked (PD-AUG, CFG path search).",
+    "C17": "A hand-rolled memo table of the layer is keyed by every input the memoised value reads, taking the key object's equality into account (CD-MEMO).",
+    "C19": "A module that is found but fails while importing (ImportError) counts as a module that cannot be imported.",
+}
+for _k, _v in ADDENDA.items():
+    CLAIMS[_k]["text"] = CLAIMS[_k]["text"].rstrip() + " " + _v
